@@ -120,13 +120,28 @@ def replay(arg):
     # the second source (and so its object and depfile) may live under a
     # path with characters the Makefile writer escapes
     s2 = names.pop('_s2', 's2.c')
+    # a generator step with two outputs (a source compiled into the program
+    # and a header every object is compiled against) is part of the project
+    gen = names.pop('_gen', '')
     pch = ", pch=precompiled_header(file='pch.h', includes=['.'])" \
         if 'h0' in names else ''
-    p = regen.Proj({'build.bfg': "project('p')\nexecutable('prog', "
-                    "['main.c', 's1.c', %r], includes=['.']%s)\n" % (s2, pch),
-                    'main.c': '#include <stdio.h>\nint val_s1(void);'
-                    'int val_s2(void);\nint main(void){printf("%d\\n", '
-                    'val_s1() + val_s2());return 0;}\n'}, backend=backend)
+    files = {'build.bfg': "project('p')\nexecutable('prog', "
+             "['main.c', 's1.c', %r], includes=['.']%s)\n" % (s2, pch),
+             'main.c': '#include <stdio.h>\nint val_s1(void);'
+             'int val_s2(void);\nint main(void){printf("%d\\n", '
+             'val_s1() + val_s2());return 0;}\n'}
+    if gen:
+        files['build.bfg'] = (
+            "project('p')\ng = build_step(['gen.c', 'gen.h'], cmd=['sh', "
+            "source_file('mkgen.sh')])\nexecutable('prog', ['main.c', "
+            "'s1.c', %r, g[0]], includes=['.', g[1]]%s)\n" % (s2, pch))
+        files['mkgen.sh'] = ('echo "#define GEN 0" > gen.h\n'
+                             'printf \'#include "gen.h"\\nint val_gen(void)'
+                             '{return GEN;}\\n\' > gen.c\n')
+        files['main.c'] = files['main.c'].replace(
+            'int main', 'int val_gen(void);int main').replace(
+            'val_s2());', 'val_s2() + val_gen());')
+    p = regen.Proj(files, backend=backend)
     try:
         fs = Files(p.src, names, s2)
         for f in ['s1', 's2'] + sorted(names):
@@ -348,6 +363,9 @@ def main(argv):
     for i, job in enumerate(jobs):
         if i % 3:
             job[2]['_s2'] = ('sub dir/s 2.c', 'o#d/s$2.c')[i % 3 - 1]
+    for i, job in enumerate(jobs):
+        if i % 2 == 0:
+            job[2]['_gen'] = '1'
     res = pmap(replay, jobs, jobs=12)
     traces = [{'id': i + 1, 'events': [
         {k: v for k, v in e.items() if k != 'note'} for e in ev]}
